@@ -192,6 +192,37 @@ func execReceiver(input string) string {
 	}
 	np, _ := strconv.Atoi(hd[1])
 	sp := newScriptedProducer()
+	readCh := sp.ch
+	bp := len(input)%4 == 0
+	if bp {
+		// backpressure: the produce channel holds one record, the client takes them out slowly; order must be kept
+		sp.ch = make(chan *kafka.Message, 1)
+		collected := make(chan *kafka.Message, 8192)
+		go func(in chan *kafka.Message) {
+			for m := range in {
+				time.Sleep(50 * time.Microsecond)
+				collected <- m
+			}
+		}(sp.ch)
+		defer close(sp.ch)
+		readCh = collected
+	}
+	next := func() *kafka.Message {
+		if bp {
+			select {
+			case km := <-readCh:
+				return km
+			case <-time.After(200 * time.Millisecond):
+				return nil
+			}
+		}
+		select {
+		case km := <-readCh:
+			return km
+		default:
+			return nil
+		}
+	}
 	// several senders (nodes and the application each hold one) write to the same topic
 	senders := []message.Sender{message.VerifNewKafkaMessageSender(kafkaproducer.VerifNewKafkaProducer(sp, topic), topic),
 		message.VerifNewKafkaMessageSender(kafkaproducer.VerifNewKafkaProducer(sp, topic), topic)}
@@ -266,8 +297,7 @@ func execReceiver(input string) string {
 					finish("senderr ")
 					continue
 				}
-				select {
-				case km := <-sp.ch:
+				if km := next(); km != nil {
 					var w wireMirror
 					if e := json.Unmarshal(km.Value, &w); e != nil {
 						pre = "K=" + hx(km.Key) + " W=undecodable "
@@ -275,15 +305,17 @@ func execReceiver(input string) string {
 						pre = fmt.Sprintf("K=%s W=%s:%s:%s:%s ", hx(km.Key), hx([]byte(w.Message.MessageType)), hx([]byte(w.Message.Key)), hx(w.Message.Payload), b01(w.Acknowledged))
 					}
 					recv.VerifProcessEvent(&kafka.Message{TopicPartition: kafka.TopicPartition{Topic: &topic}, Key: km.Key, Value: km.Value})
-				default:
+				} else {
 					pre = "norecord "
 				}
 				finish(pre)
 			}
-			select {
-			case <-sp.ch:
-				outs[len(outs)-1] = "extra-record " + outs[len(outs)-1]
-			default:
+			if !bp {
+				select {
+				case <-readCh:
+					outs[len(outs)-1] = "extra-record " + outs[len(outs)-1]
+				default:
+				}
 			}
 			i = j - 1
 			continue
